@@ -50,25 +50,29 @@ theorem every_packet_pending_or_reported (ops : List Op) (p : Nat)
   · exact Or.inr ⟨fun h2 => hnd.2.2 p h2 p h rfl, h⟩
 
 /-- **Acknowledged only if covered.** Whenever, after any history, an operation reports packet `p`
-as *acknowledged*, that operation is the processing of `<a h/>` (with stream management on) or of
-`<resumed h/>`, `p` is stored under a sequence number `k` at that moment, and `k ≤ h`. -/
+as *acknowledged*, that operation carries a handled count `h` (`op.ackH = some h`: it is the
+processing of `<a h/>` — then stream management is on — or of `<resumed h/>`, with or without
+re-entrant continuations), and there is a number `k ≤ h` such that `p` is stored under `k` at that
+moment, or — only possible with re-entrant continuations and an `h` beyond the last number used —
+`p` was sent by a continuation during this very operation and numbered `k` beyond `lastOut`. -/
 theorem ack_only_if_covered (pre : List Op) (op : Op) (p : Nat)
     (hm : Out.report p .acked ∈ (step (run init pre).1 op).2) :
-    ∃ h k, ((op = .ack h ∧ (run init pre).1.enabled = true) ∨ ∃ up, op = .resumed h up) ∧
-      (k, p) ∈ (run init pre).1.unacked ∧ k ≤ h :=
+    ∃ h k, op.ackH = some h ∧ (op.isA = true → (run init pre).1.enabled = true) ∧ k ≤ h ∧
+      ((k, p) ∈ (run init pre).1.unacked ∨
+       ((run init pre).1.lastOut < k ∧ (run init pre).1.nextId ≤ p)) :=
   step_acked _ op p hm
 
 /-- … the same, phrased on the output of a whole history: every *acknowledged* report in it was
-produced at some position by an `<a h/>` / `<resumed h/>` whose `h` covered the packet's number
-at that position. -/
+produced at some position by an operation whose `h` covered the packet's number at that position. -/
 theorem ack_only_if_covered_run (ops : List Op) (p : Nat)
     (hm : Out.report p .acked ∈ (run init ops).2) :
-    ∃ pre op post h k, ops = pre ++ op :: post ∧
-      ((op = .ack h ∧ (run init pre).1.enabled = true) ∨ ∃ up, op = .resumed h up) ∧
-      (k, p) ∈ (run init pre).1.unacked ∧ k ≤ h := by
+    ∃ pre op post h k, ops = pre ++ op :: post ∧ op.ackH = some h ∧
+      (op.isA = true → (run init pre).1.enabled = true) ∧ k ≤ h ∧
+      ((k, p) ∈ (run init pre).1.unacked ∨
+       ((run init pre).1.lastOut < k ∧ (run init pre).1.nextId ≤ p)) := by
   obtain ⟨pre, op, post, he, hs⟩ := (mem_run init ops _).mp hm
-  obtain ⟨h, k, h1, h2, h3⟩ := ack_only_if_covered pre op p hs
-  exact ⟨pre, op, post, h, k, he, h1, h2, h3⟩
+  obtain ⟨h, k, h1, h2, h3, h4⟩ := ack_only_if_covered pre op p hs
+  exact ⟨pre, op, post, h, k, he, h1, h2, h3, h4⟩
 
 /-- The sequence number of a stored packet is unambiguous (so "`k ≤ h`" above speaks about *the*
 number of `p`). -/
@@ -127,6 +131,80 @@ theorem resend_exact_in_order_enabledNew (pre post : List Op) :
 theorem resend_nothing_when_write_fails (s : St) (h : Nat) :
     wireOf (step s (.resumed h false)).2 = [] ∧ wireOf (step s (.enabledNew false)).2 = [] :=
   ⟨wireOf_step_resumed_down s h, wireOf_step_enabledNew_down s⟩
+
+/-! ### Delivery reports whose continuation sends (re-entrancy) -/
+
+/-- Without sending continuations the re-entrant operations are the plain ones. -/
+theorem reentrant_ops_without_sending_continuations (s : St) (h : Nat) (up : Bool) :
+    step s (.ackRe h [] up) = step s (.ack h) ∧ step s (.resumedRe h [] up) = step s (.resumed h up) :=
+  ⟨step_ackRe_nil s h up, step_resumedRe_nil s h up⟩
+
+/-- **`<a/>` site.** With stream management on, every stanza a continuation sends while `<a h/>` is
+processed is numbered and stored behind everything already stored (or, if `h` is beyond, confirmed
+at once): nothing goes to the wire unnumbered. -/
+theorem ackRe_reentrant_sends_are_numbered (s : St) (h : Nat) (re : List Nat) (up : Bool)
+    (hen : s.enabled = true) :
+    ∀ p ∈ pktsOf (step s (.ackRe h re up)).2,
+      p ∈ ids (step s (.ackRe h re up)).1.unacked ∨ Out.report p .acked ∈ (step s (.ackRe h re up)).2 := by
+  simp only [step, hen, if_true]
+  exact ackPhase_stored s h re up hen
+
+/-- **Partial (`<resumed/>` site).** `resend_exact_in_order_resumed` extends to re-entrant
+continuations as long as none of the packets being acknowledged has a sending continuation.
+Missing for the full statement (every `re`): a continuation that sends while `<resumed/>` is
+processed — see `C09_defect_resumed_reentrant_send_unnumbered_and_first`. -/
+theorem resend_exact_in_order_resumedRe_partial (pre post : List Op) (h : Nat) (re : List Nat)
+    (hn : ∀ e ∈ (run init pre).1.unacked, e.1 ≤ h → re.contains e.2 = false) :
+    let s := (run init pre).1
+    wireOf (run init (pre ++ .resumedRe h re true :: post)).2 =
+      wireOf (run init pre).2 ++
+      resendBlock (s.unacked.filter fun e => decide (h < e.1)) ++
+      wireOf (run (step s (.resumedRe h re true)).1 post).2 := by
+  intro s
+  obtain ⟨a, _, hkf, _⟩ := (Inv.reachable pre).keys
+  rw [run_append, run_cons, step_resumedRe_none _ h re true hn]
+  simp only [wireOf_append, wireOf_step_resumed_up, List.append_assoc]
+  rw [hkf.keptPart_eq_filter]
+
+/-- **Defect of today's code.** Full statement: for *every* set of sending continuations, processing
+`<resumed h/>` writes the stored packets with number `> h` first (then whatever the continuations
+send), and every packet it writes is stored, i.e. numbered, afterwards.  False: `onResumed` fires
+the reports before stream management is switched on and before the resend, so a stanza sent by a
+continuation is written *before* the resent ones and is *not* numbered, although the server counts
+it on the resumed session.  Witness: two stanzas stored, connection lost, `<resumed h=1/>`, the
+continuation of packet 0 sends: wire = new packet 2, then packet 1, `<r/>`; packet 2 is reported
+"sent" and not stored. -/
+theorem C09_defect_resumed_reentrant_send_unnumbered_and_first :
+    ¬ (∀ (pre : List Op) (h : Nat) (re : List Nat),
+        let s := (run init pre).1
+        (∃ newer, wireOf (step s (.resumedRe h re true)).2 =
+            resendBlock (s.unacked.filter fun e => decide (h < e.1)) ++ newer) ∧
+        ∀ p ∈ pktsOf (step s (.resumedRe h re true)).2, p ∈ ids (step s (.resumedRe h re true)).1.unacked) := by
+  intro hall
+  have := (hall [.enabledNew true, .send true true, .send true true, .sessionClosed] 1 [0]).2 2 (by decide)
+  revert this
+  decide
+
+/-! ### `<failed h/>`: the handled count of a failed resumption -/
+
+/-- Today `onResumeFailed` does nothing at all, whatever `h` the server reports. -/
+theorem resumeFailed_is_ignored (s : St) (h : Option Nat) : step s (.resumeFailed h) = (s, []) := rfl
+
+/-- **Defect of today's code.** Full statement ("covered ones are never resent", coverage announced
+by the `h` of `<failed/>`, XEP-0198 section 5): after `<failed h/>` no stored packet with number
+`≤ h` is ever written again.  False: the count is not read, so the new session retransmits what the
+server had already handled.  Witness: one stanza stored under number 1, connection lost,
+`<failed h=1/>`, `<enabled/>`: packet 0 is written again.  The part that holds is
+`covered_never_resent` (coverage announced by `<a/>` or `<resumed/>`). -/
+theorem C09_defect_failed_h_ignored_covered_resent :
+    ¬ (∀ (pre post : List Op) (h k p : Nat),
+        (k, p) ∈ (run init pre).1.unacked → k ≤ h →
+        p ∉ pktsOf (run (run init pre).1 (.resumeFailed (some h) :: post)).2) := by
+  intro hall
+  have := hall [.enabledNew true, .send true true, .sessionClosed] [.enabledNew true] 1 1 0
+    (by decide) (by decide)
+  revert this
+  decide
 
 /-- **Covered packets are never resent.** Once a packet has a report (in particular once it was
 acknowledged), no continuation of the history puts it on the wire again. -/
@@ -193,7 +271,7 @@ theorem send_without_sm_reports_immediately (s : St) (stanza up : Bool)
     (step s (.send stanza up)).1.unacked = s.unacked ∧
     (step s (.send stanza up)).2 =
       emit up (.pkt s.nextId) ++ [.report s.nextId (if up then .sent else .writeError), .written up] := by
-  rcases h with h | h <;> simp [step, h]
+  rcases h with h | h <;> simp [step, sendStep, h]
 
 /-- With stream management on, a stanza is stored under the next number and gets no report yet —
 also when the write failed (`up = false`, `send` returns *not written*): it waits for resumption. -/
@@ -202,7 +280,7 @@ theorem send_with_sm_stores_and_waits (s : St) (up : Bool) (h : s.enabled = true
     (step s (.send true up)).1.lastOut = s.lastOut + 1 ∧
     reportedIds (step s (.send true up)).2 = [] ∧
     Out.written up ∈ (step s (.send true up)).2 := by
-  simp [step, h, reportedIds_append]
+  simp [step, sendStep, h, reportedIds_append]
 
 /-- An `<a/>` arriving while stream management is off (e.g. after the session closed) is ignored. -/
 theorem ack_ignored_when_disabled (s : St) (h : Nat) (hd : s.enabled = false) :
@@ -286,5 +364,25 @@ example : (run init [.send true true, .send true false, .enabledNew true, .send 
 -- resetCache reports what is still stored as disconnected
 example : (run init [.enabledNew true, .send true true, .sessionClosed, .resetCache]).2 =
     [.wire (.pkt 0), .wire .r, .written true, .report 0 .disconnected] := by decide
+
+-- re-entrant continuations at the `<a/>` site: both reports send; the new stanzas are numbered 3 and 4 behind everything
+example : (step (run init [.enabledNew true, .send true true, .send true true]).1 (.ackRe 2 [0, 1] true)) =
+    ({ enabled := true, unacked := [(3, 2), (4, 3)], lastOut := 4, lastIn := 0, nextId := 4 },
+     [.report 0 .acked, .wire (.pkt 2), .wire .r, .written true,
+      .report 1 .acked, .wire (.pkt 3), .wire .r, .written true]) := by decide
+-- … and with `h` beyond the last number used the loop reaches the first of them
+example : (step (run init [.enabledNew true, .send true true, .send true true]).1 (.ackRe 3 [0, 1] true)).1.unacked
+    = [(4, 3)] := by decide
+-- the `<resumed/>` defect witness, spelled out: new packet 2 first, reported "sent", not stored
+example : (step (run init [.enabledNew true, .send true true, .send true true, .sessionClosed]).1
+    (.resumedRe 1 [0] true)) =
+    ({ enabled := true, unacked := [(2, 1)], lastOut := 2, lastIn := 0, nextId := 3 },
+     [.report 0 .acked, .wire (.pkt 2), .report 2 .sent, .written true, .wire (.pkt 1), .wire .r]) := by decide
+-- partial theorem: hypothesis met with a sending continuation that is not among the acknowledged ones
+example : ∀ e ∈ (run init [.enabledNew true, .send true true, .send true true, .sessionClosed]).1.unacked,
+    e.1 ≤ 1 → [1].contains e.2 = false := by decide
+-- the `<failed h/>` defect witness: packet 0, covered by h = 1, is written again on the new session
+example : pktsOf (run (run init [.enabledNew true, .send true true, .sessionClosed]).1
+    [.resumeFailed (some 1), .enabledNew true]).2 = [0] := by decide
 
 end Qx.C09
